@@ -80,7 +80,7 @@ func randTemplate(r *rand.Rand) v1.PodTemplateSpec {
 		}
 	}
 	mkC := func(name string) v1.Container {
-		c := v1.Container{Name: name, Image: randStr(r, "img") + ":" + fmt.Sprint(r.Intn(9))}
+		c := v1.Container{Name: name, Image: randStr(r, "img") + []string{":" + fmt.Sprint(r.Intn(9)), ":latest", "", ":" + fmt.Sprint(r.Intn(9))}[r.Intn(4)]}
 		for i := 0; i < r.Intn(3); i++ {
 			c.Env = append(c.Env, v1.EnvVar{Name: fmt.Sprintf("E%d", i), Value: randText(r)})
 		}
@@ -118,7 +118,7 @@ func randTemplate(r *rand.Rand) v1.PodTemplateSpec {
 		if r.Intn(3) == 0 {
 			c.VolumeMounts = []v1.VolumeMount{{Name: "scratch", MountPath: "/scratch", ReadOnly: r.Intn(2) == 0}}
 		}
-		c.ImagePullPolicy = []v1.PullPolicy{"", v1.PullAlways, v1.PullIfNotPresent}[r.Intn(3)]
+		c.ImagePullPolicy = []v1.PullPolicy{"", v1.PullAlways, v1.PullIfNotPresent, v1.PullNever}[r.Intn(4)]
 		return c
 	}
 	for i := 0; i <= r.Intn(3); i++ {
